@@ -107,16 +107,32 @@ def race_reports(out):
 
 
 def prints(out, tag):
-    """Extract PrintT(<<tag, ...>>) tuples from TLC output as python lists."""
+    """Extract PrintT(<<tag, ...>>) tuples from TLC output as python lists. TLC pretty-prints a tuple that does not fit on one
+    line over several lines (one element per line): both layouts are read."""
     res = []
-    for line in out.splitlines():
-        line = line.strip()
-        if line.startswith('<<"%s"' % tag) and line.endswith(">>"):
+    lines = out.splitlines()
+    i = 0
+    head = '<<"%s"' % tag
+    head2 = '<< "%s"' % tag
+    while i < len(lines):
+        line = lines[i].strip()
+        if line.startswith(head) and line.endswith(">>"):
             body = line[2:-2]
-            try:
-                res.append(json.loads("[" + body + "]"))
-            except Exception:
-                pass
+        elif line.startswith(head2):
+            parts = [line[2:].strip()]
+            while not parts[-1].endswith(">>") and i + 1 < len(lines):
+                i += 1
+                parts.append(lines[i].strip())
+            body = " ".join(parts)
+            body = body[:-2] if body.endswith(">>") else body
+        else:
+            i += 1
+            continue
+        try:
+            res.append(json.loads("[" + body + "]"))
+        except Exception:
+            pass
+        i += 1
     return res
 
 
